@@ -34,7 +34,7 @@ def monitor_cancel(case, res, sem, g):
     ret = [e for e in ev if e["kind"] == "execute-return"]
     if ret and ret[0]["seq"] < t_cancel_seq:
         return vs, False  # the run had already returned when the trigger fired
-    # (b) every execution still open when its connection was closed, started before cancel: signal (or plain close)
+    # (b) every execution still open when its connection was closed: signal (or plain close)
     close_seq = {e["conn"]: e["seq"] for e in ev if e["kind"] == "conn-close"}
     ends = {}
     for e in ev:
@@ -45,8 +45,8 @@ def monitor_cancel(case, res, sem, g):
         if e["kind"] == "signal" and e.get("data") == "cancel":
             signals.setdefault(e["conn"], e["seq"])
     for e in ev:
-        if e["kind"] != "exec-start" or e["seq"] > t_cancel_seq:
-            continue
+        if e["kind"] != "exec-start":
+            continue  # executions that begin after the cancellation are held to the same rule: they are running plugins of a cancelled run
         c = e["conn"]
         end = ends.get(c)
         normal_end = end is not None and not (end.get("data") or {}).get("aborted")
